@@ -2,6 +2,7 @@
 footprint configurations + traversal rules on the IR."""
 import itertools
 from common import *
+from irlib import demangle1
 from shape import *
 from absval import PtrVal, IntVal, State, NULL
 from lin import Lin
@@ -205,16 +206,32 @@ def run_typed_dlist(rep, mod):
                 kind = 'item'
             elif 'dlist_node' in ptys[1]:
                 kind = 'node'
+            elif 'iterator' in ptys[1]:
+                kind = 'iter'      # iterator passed by value (indirectly): an object of its own holding the node pointer
             else:
-                continue   # iterator overload: forwards to the item overload (analysed through it)
+                continue
             for cfg in same_ring_cfgs('y', 'x', ('a', 'b')) + two_ring_cfgs('y', 'x'):
                 def args(st_, objs, kind=kind):
                     a = [PtrVal(objs['h0'].id, Lin(0)), PtrVal(objs['x'].id, Lin(0))]
-                    a.append(PtrVal(objs['y'].id, Lin(0 if kind == 'item' else off)))
+                    if kind == 'iter':
+                        io = st_.new_obj('param', Lin(8), 'iterator', {'desc': 'iterator argument (by value)'})
+                        st_.mem[(io.id, 0, 8)] = PtrVal(objs['y'].id, Lin(off))
+                        a.append(PtrVal(io.id, Lin(0)))
+                    else:
+                        a.append(PtrVal(objs['y'].id, Lin(0 if kind == 'item' else off)))
                     return a
+                def deref_hook(interp, st_, i, callee, a):
+                    # iterator::operator*(): the element that contains the node the iterator points at (member_container is
+                    # pointer arithmetic through an integer; summarised by its definition)
+                    if callee and 'iterator' in demangle1(callee) and 'operator*' in demangle1(callee) and a and \
+                            isinstance(a[0], PtrVal):
+                        node = st_.mem.get((a[0].obj, a[0].off.c if a[0].off.is_const() else None, 8))
+                        if isinstance(node, PtrVal) and node.obj is not None:
+                            return [(st_, PtrVal(node.obj, node.off - off))]
+                    return None
                 R.run('dlist<T>::%s(%s)' % (nm, kind), f, args, cfg,
                       lambda r, ins=ins: dict(rings=ins(seq_remove(r, 'x'), 'x', 'y')),
-                      extra_cells=['h0'], cell_sizes=cs, link_off=lo)
+                      extra_cells=['h0'], cell_sizes=cs, link_off=lo, call_hook=deref_hook if kind == 'iter' else None)
     for n in range(0, 4):
         ring = ['h'] + ['a', 'b', 'c'][:n]
         R.run('dlist<T>::clear', M('clear'), items('h'), [ring], lambda r: dict(rings=[], self=list(r[0])))
